@@ -14,3 +14,4 @@ import Peppi.Props.C13
 #print axioms Peppi.Props.C13.views_TriggersPhysical
 #print axioms Peppi.Props.C13.views_Velocities
 #print axioms Peppi.Props.C13.views_Velocity
+#print axioms Peppi.Props.C13.parseEvent_extends
